@@ -1628,13 +1628,38 @@ func enumMemberRule(R string) RuleFunc {
 			return
 		}
 		fields := map[string]bool{}
+		// locals that only name an expression: want := aa.enumItemValue
+		alias := map[string]ast.Expr{}
+		ast.Inspect(d.Decl.Body, func(n ast.Node) bool {
+			if as, ok := n.(*ast.AssignStmt); ok && as.Tok == token.DEFINE && len(as.Lhs) == 1 && len(as.Rhs) == 1 {
+				if id, ok := as.Lhs[0].(*ast.Ident); ok {
+					alias[id.Name] = as.Rhs[0]
+				}
+			}
+			return true
+		})
+		resolve := func(e ast.Expr) ast.Expr {
+			e = ast.Unparen(e)
+			for i := 0; i < 3; i++ {
+				id, ok := e.(*ast.Ident)
+				if !ok {
+					break
+				}
+				a, ok := alias[id.Name]
+				if !ok {
+					break
+				}
+				e = ast.Unparen(a)
+			}
+			return e
+		}
 		ast.Inspect(d.Decl.Body, func(n ast.Node) bool {
 			be, ok := n.(*ast.BinaryExpr)
-			if !ok || be.Op != token.EQL {
+			if !ok || (be.Op != token.EQL && be.Op != token.NEQ) {
 				return true
 			}
-			x, okx := be.X.(*ast.SelectorExpr)
-			y, oky := be.Y.(*ast.SelectorExpr)
+			x, okx := resolve(be.X).(*ast.SelectorExpr)
+			y, oky := resolve(be.Y).(*ast.SelectorExpr)
 			if okx && oky && x.Sel.Name == y.Sel.Name {
 				fields[x.Sel.Name] = true
 			}
